@@ -48,6 +48,7 @@ type op struct {
 	PK    string `json:",omitempty"` // payload kind
 	N     int    `json:",omitempty"` // payload number: store 1000+N, region 2000+N, peer 3000+N
 	Out   int    `json:",omitempty"` // 0 Ok 1 ErrNotApplied 2 ErrApplied
+	Ms    int    `json:",omitempty"` // finishslow: how long etcd takes over the transaction (milliseconds)
 	M     int    `json:",omitempty"`
 	H     string `json:",omitempty"`
 	Ver   string   `json:",omitempty"` // boot/begin: the store's version string ("" = unset)
@@ -156,6 +157,8 @@ func (o op) coq() string {
 		return fmt.Sprintf("OFinish %d %s", o.T, outc[o.Out])
 	case "finishsf":
 		return fmt.Sprintf("OFinishStartFail %d", o.T)
+	case "finishslow":
+		return fmt.Sprintf("OFinishSlow %d %d", o.T, o.Ms)
 	case "commit":
 		return fmt.Sprintf("OCommit %d", o.T)
 	case "served":
@@ -349,6 +352,27 @@ func (w *world) exec(o op) string {
 		w.ek.Release(fmt.Sprintf("b%d", o.T), modes[o.Out])
 		w.park[o.T], w.held[o.T] = false, false
 		return bootObs(<-w.done[o.T])
+	case "finishslow":
+		// etcd is slow (a stalled disk): it accepts the transaction, takes o.Ms over it and applies it then - also when the
+		// client that sent it has stopped waiting
+		if !w.park[o.T] || w.held[o.T] {
+			return "BBad"
+		}
+		who := fmt.Sprintf("b%d", o.T)
+		d := time.Duration(o.Ms) * time.Millisecond
+		w.ek.SetDelay(who, d)
+		t0 := time.Now()
+		w.ek.Release(who, kvx15.PassSlow)
+		w.park[o.T] = false
+		ob := bootObs(<-w.done[o.T])
+		if el := time.Since(t0); el < d {
+			// the request gave up before etcd was done: let etcd finish before anything else is looked at
+			w.R.Count("slow-etcd:request-returned-before-etcd-answered")
+			time.Sleep(d - el + 700*time.Millisecond)
+		} else {
+			w.R.Count("slow-etcd:request-waited-for-etcd")
+		}
+		return ob
 	case "commit":
 		// the parked transaction is sent and decided by etcd; a winner's answer is held on its way back
 		if !w.park[o.T] || w.held[o.T] {
@@ -1120,6 +1144,9 @@ func directed(handlers []string) [][]op {
 		// the cluster A bootstrapped, A's first region included
 		{{K: "begin", T: 0, PK: "valid"}, {K: "commit", T: 0}, {K: "isboot"}, {K: "boot", T: 1, PK: "valid"}, {K: "isboot"}, {K: "served"},
 			{K: "finish", T: 0}, {K: "served"}, {K: "isboot"}, {K: "reload"}, {K: "served"}},
+		// etcd takes 4 s over the bootstrap transaction (a stalled disk) and applies it: the request waits for it (10 s,
+		// kv.requestTimeout) and is answered OK; a second request behind it loses
+		{{K: "begin", T: 0, PK: "valid"}, {K: "begin", T: 1, PK: "valid"}, {K: "finishslow", T: 0, Ms: 4000}, {K: "isboot"}, {K: "finishslow", T: 1, Ms: 300}, {K: "isboot"}},
 		// ... the same with a parked second request that loses when it is released in the window
 		{{K: "begin", T: 0, PK: "valid"}, {K: "begin", T: 1, PK: "valid"}, {K: "commit", T: 1}, {K: "commit", T: 0}, {K: "isboot"}, {K: "finish", T: 1}, {K: "isboot"}, {K: "stop"}, {K: "isboot"}},
 		// three concurrent valid requests, the second one released first
